@@ -31,13 +31,21 @@ open GoDcp GoDcp.AsyncOp GoDcp.Spec.C20
 /-- what the simulated node does with the scripted request (harness/l2_wrappers.go) -/
 inductive Beh
   | prompt | errInternal | errEnoent | errTmpfail | tmpfailAlways | delayShort | delayLong | silent | drop
+  -- the request never reaches the node: gocbcore refuses it at dispatch, no callback will ever run
+  | rejShutdown | rejInvalidVb | rejOverload
   deriving DecidableEq, Repr
+
+def Beh.rejected : Beh → Bool
+  | .rejShutdown | .rejInvalidVb | .rejOverload => true
+  | _ => false
 
 def beh? : String → Option Beh
   | "prompt" => some .prompt | "err-internal" => some .errInternal | "err-enoent" => some .errEnoent
   | "err-tmpfail" => some .errTmpfail | "tmpfail-always" => some .tmpfailAlways
   | "delay-short" => some .delayShort | "delay-long" => some .delayLong | "silent" => some .silent
-  | "drop" => some .drop | _ => none
+  | "drop" => some .drop
+  | "rejected-shutdown" => some .rejShutdown | "rejected-invalid-vb" => some .rejInvalidVb
+  | "rejected-overload" => some .rejOverload | _ => none
 
 /-- how an entry point uses the table row of its scripted call -/
 inductive Post
@@ -90,6 +98,7 @@ def codeEnoent : Nat := 2
 def codeTmpfail : Nat := 3
 def codeConn : Nat := 4      -- gocbcore: socket closed in flight
 def codeGocbTimeout : Nat := 5   -- gocbcore's own deadline fired its callback
+def codeDispatch : Nat := 7      -- gocbcore refused the request at dispatch (ErrShutdown / ErrOverload / no route)
 
 /-- model deadline in ticks (any value ≥ 2 gives the same classes) -/
 def wireD : Nat := 3
@@ -112,6 +121,8 @@ def schedules (e : Entry) (b : Beh) : List (List Action) :=
   | .tmpfailAlways => if e.bestEffort then silentS else [okSched 0 (.err codeTmpfail)]
   | .delayLong | .silent => silentS
   | .drop => [okSched 0 (.err codeConn)] ++ (if e.resend then [okSched 1 (.ok 1)] ++ silentS else [])
+  -- `Wait(op, err)` hands the dispatch error back, the wrapper returns it: two steps of the caller, no tick
+  | .rejShutdown | .rejInvalidVb | .rejOverload => [[.waiterStep false, .waiterStep false]]
 
 def classOfFinal : Final → String
   | .ok _ => "ok"
@@ -119,7 +130,7 @@ def classOfFinal : Final → String
   | .srvErr c => if c == codeConn then "conn-error" else if c == codeGocbTimeout then "timeout" else "server-error"
   | .ctxErr .deadlineExceeded => "timeout"
   | .ctxErr .canceled => "canceled"
-  | .immErr _ => "other-error"
+  | .immErr c => if c == codeDispatch then "dispatch-error" else "other-error"
 
 def showTime : TimeClass → String
   | .before => "before" | .ontime => "ontime" | .late => "late"
@@ -133,7 +144,7 @@ def postClass (p : Post) (f : Final) : String :=
   let c := classOfFinal f
   match p with
   | .plain => c
-  | .ping => if c == "ok" || c == "timeout" then c else "unhealthy"
+  | .ping => if c == "ok" || c == "timeout" || c == "dispatch-error" then c else "unhealthy"
   | .saveUpsert => (match f with | .srvErr 2 => "ok" | _ => c)
   | .saveCreate => c
   | .load => (match f with | .srvErr 2 => "ok-noexist" | .ok _ => "ok" | _ => "failstop:" ++ c)
@@ -156,7 +167,8 @@ def shapeOf (w : Wrapper) (f7 : Option String) : Shape :=
 
 /-- all (class, time) pairs the model allows, first = the canonical one -/
 def allowed (e : Entry) (w : Wrapper) (b : Beh) (dclass : String) (f7 : Option String) : List (String × TimeClass) :=
-  let cfg : AsyncOp.Cfg := { shape := shapeOf w f7, deadline := if dclass == "bg5" then none else some wireD }
+  let cfg : AsyncOp.Cfg := { shape := shapeOf w f7, deadline := if dclass == "bg5" then none else some wireD,
+                             imm := if b.rejected then some codeDispatch else none }
   let outs := (schedules e b).filterMap fun acts =>
     let s := AsyncOp.run (AsyncOp.init cfg) acts
     s.final.map fun f => (postClass e.post f, timeOf s)
@@ -219,7 +231,16 @@ def hAoWire (args : List String) (real : Option String) : Option Out := do
     | none, _ => "-"
     | some _, none => "FAIL C20.unparsable"
     | some _, some (c, t, leak) =>
-      if c == "ok-empty" then
+      -- rejected at dispatch: the error must come back at once; `hang` (or a late return) = the wrapper waits for a
+      -- callback that will never run, success = the dispatch error was dropped
+      if b.rejected then
+        (if c == "hang" then "FAIL C20.dispatch-error-hangs"
+         else if c == "ok" || c.startsWith "ok-" then "FAIL C20.dispatch-error-swallowed"
+         else if t != .before then "FAIL C20.dispatch-error-hangs"
+         else if leak != 0 then "FAIL C20.no-block"
+         else if c == "dispatch-error" || c == "panic:dispatch-error" then "ok"
+         else "FAIL C20.dispatch-error-swallowed")
+      else if c == "ok-empty" then
         if wn == "GetVBucketSeqNos" && isErrLike b && f7 == some "swallows" then kfF7
         else "FAIL C20.success-unconfirmed"
       else if c == "ok-unconfirmed" then "FAIL C20.success-unconfirmed"
